@@ -631,10 +631,12 @@ impl NodeManage {
         } else {
             let index = hash_value % nodes.len();
             let node = nodes.get(index).unwrap();
+            // the payload is the owner's NODE ID: NamingRoute::do_route_instance stores it as `from_cluster` of the forwarder's
+            // local copy; the position in the valid-node list made that 0 (= "mine") for the first node's services
             if node.is_local {
-                NamingRouteAddr::Local(index as u64)
+                NamingRouteAddr::Local(node.id)
             } else {
-                NamingRouteAddr::Remote(index as u64, node.addr.clone())
+                NamingRouteAddr::Remote(node.id, node.addr.clone())
             }
         }
     }
